@@ -238,6 +238,13 @@ func (b *Broker) deleteSession(clientID string) {
 			logger.SpanDebugf(nil, "broker watch and delete client %v", c.info.cid)
 			c.close()
 		}
+		// the session is gone: drop its local state now. The connection's own
+		// teardown comes whenever its read loop wakes up, by then the client id
+		// may belong to another connection whose state it must leave alone.
+		c.setTakenOver()
+		b.sessMgr.delLocal(clientID)
+		topics, _, _ := c.session.allSubscribes()
+		b.topicMgr.unsubscribe(topics, clientID)
 	}
 	delete(b.clients, clientID)
 }
